@@ -48,6 +48,7 @@ pub struct Params {
 ///   D<value>          change the dc offset from here on
 ///   A<value>          change the signal amplitude from here on
 ///   F<sec>:<amp>      FSK carrier of random valid SAME characters
+///   R<sec>:<start>:<step>:<len>  staircase: sample i is (start + step * (i / len)) as f32 (no dc, no noise)
 pub fn synthesize(p: &Params, script: &str) -> Vec<f32> {
     let fs = p.rate as f64;
     let mut rng = Rng(p.seed);
@@ -130,6 +131,15 @@ pub fn synthesize(p: &Params, script: &str) -> Vec<f32> {
                 for i in 0..n {
                     let ph = (hz * i as f64 / fs).fract();
                     out.push((dc + if ph < 0.5 { a } else { -a }) as f32);
+                }
+            }
+            "R" => {
+                let n = (args[0].parse::<f64>().unwrap() * fs).round() as usize;
+                let start: f64 = args[1].parse().unwrap();
+                let step: f64 = args[2].parse().unwrap();
+                let len: usize = args[3].parse().unwrap();
+                for i in 0..n {
+                    out.push((start + step * (i / len) as f64) as f32);
                 }
             }
             "D" => dc = args[0].parse().unwrap(),
